@@ -249,7 +249,7 @@ CHECKS["C19"] = {
     "technique": "runtime monitoring: (A) reference-model oracle over generated write sequences through the real DefaultMetricLogWriter with directory observation after every write, all (begin,end,resource) / (begin,max_lines) queries compared; (B) fault enumeration: the writer runs in a child under strace, the parsed openat/write/unlink stream is replayed byte by byte and EVERY prefix is searched",
     "rule": "part A cases = write sequences of 2..14 seconds x 1..4 resources (names incl. '|' and '.'), gaps of 1/2/5 s, ms offsets, repeated writes of the same second, creation close to midnight UTC (day change), single-file size limits {120,200,350,600,1e6} bytes (roll-over up to file number .13), max file count 1..4; queries = all pairs of written seconds +-1 x {all, 3 resource names, unknown} and begin x max_lines {1,2,3,5,1000}, each on a fresh DefaultMetricSearcher. Part B cases = the same generator (smaller), executed by a child process under `strace -f -y -xx -e openat,write,unlink,unlinkat`; crash points = after every create/unlink and after EVERY byte of every write (torn index entries and torn lines both occur). Non-trivial: part A sequences with at least one retained item, all part B sequences; distinct = distinct (files, size roll?, day roll?, retention removed files?, max files, length) resp. (files, unlinks?, torn index?, torn line?, size)",
     "level_text": "Part A: every query result equals the list of written-and-retained items computed from the observation record (by-time: exact list in write order; max-lines: a prefix of it of length >= min(n, available)); the newest max_files files are on disk. Part B: at every crash point of every traced sequence both searches must not panic, must return - in order - every item whose line and whose second's index entry are completely on disk, and may return at most one item that is not a complete line on disk (the torn one); crash points of a sequence are enumerated completely, sequences and queries are sampled.",
-    "level_note": "Searches use a fresh searcher per query (the position cache of a long-lived searcher is not exercised). strace is the observer of the byte stream; the replay of the whole stream is cross-checked against the directory the child left behind.",
+    "level_note": "Part A puts every query to a fresh searcher and to one long-lived searcher per case (position cache carried over); part B uses fresh searchers. strace is the observer of the byte stream; the replay of the whole stream is cross-checked against the directory the child left behind.",
     "design_ref": "DESIGN.md §5 C19",
     "assumptions": COMMON_ASSUMPTIONS + ["sentinel-core built with feature metric_log for this monitor only", "strace available and ptrace permitted (else the run is inconclusive, never a violation)"],
 }
